@@ -36,10 +36,27 @@ MANIFEST = {
 ALPHA = ['a', ' ', ';', ',', '"', '\\', '=', 'ü', '€']
 NAMES = ['n', 'a-b', 'N1']
 SECRETS = ['s', 'other', 'ü']
-SIGNED = [('t', 1), {'k': [1, 2, {'z': None}]}, 'text', None, b'by\x00tes', 0, '', '!looks?signed', '!?']
+SIGNED = [('t', 1), {'k': [1, 2, {'z': None}]}, 'text', None, b'by\x00tes', 0, '', '!looks?signed', '!?', ['cart', 1], bytearray(b'ab'), {'s', 1}]
 B64 = 'ABCDEFGHIJKLMNOPQRSTUVWXYZabcdefghijklmnopqrstuvwxyz0123456789+/'
 SUBST = B64 + '!?='
 MISSING = '<<absent>>'
+
+
+def scribble(obj):
+    """edit a value a handler got from get_cookie in place (as handlers do with session dicts); False if it cannot be edited"""
+    if isinstance(obj, dict):
+        obj['scribbled'] = True
+        for v in obj.values():
+            if isinstance(v, list):
+                v.append('scribbled')
+        return True
+    if isinstance(obj, list):
+        obj.append('scribbled')
+        return True
+    if isinstance(obj, (set, bytearray)):
+        obj.clear()
+        return True
+    return False
 
 
 class Blocked(Exception):
@@ -82,6 +99,10 @@ def shards(tier, seed):
             for k in range(8):
                 out.append(('signed2', (si, k), vi))
     out.append(('swap', None, None))
+    # two requests on two threads of one application: genuine / forged / other cookies, every schedule with <= 1 (thorough 2) preemptions
+    for ci in range(len(THREAD_CASES)):
+        for start in (0, 1):
+            out.insert(0, ('threads', ci, start, 1 if tier == 'quick' or ci else 2))
     # plain values in which a backslash is followed by digits (they look like the octal escapes of the cookie quoting)
     for seqn in ('\\101', '\\073', '\\377', '\\400', '\\08', '\\1', '\\0012'):
         out.append(('plainx', seqn, 2))
@@ -98,7 +119,7 @@ def bounds(tier, seed):
             'characters, truncation at every position; signature/payload swaps; foreign secret'}
 
 
-FLOORS = {'via_reused_object': 100, 'reused_request': 20000, 'via_redirect': 200, 'plain_roundtrips': 500, 'signed_roundtrips': 20, 'tampered': 50000, 'quoted_values': 300}
+FLOORS = {'schedules': 1000, 'via_reused_object': 100, 'reused_request': 20000, 'via_redirect': 200, 'plain_roundtrips': 500, 'signed_roundtrips': 20, 'tampered': 50000, 'quoted_values': 300}
 
 
 COOKIE_OPTIONS = [{}, {'max_age': 60}, {'path': '/x', 'secure': True, 'httponly': True}, {'expires': 1700000000}, {'domain': 'h.test', 'max_age': 0}]
@@ -252,8 +273,86 @@ def read_reused(om, proxy, first_pair, first_secret, pair, name, secret):
     return v1, req.get_cookie(name, default=MISSING, secret=secret)
 
 
+# ---- two requests of one application on two threads (E-SCHED): the verdict on a cookie belongs to the request that carries it ----
+
+THREAD_CASES = [('genuine', 'forged'), ('genuine', 'other-value'), ('genuine', 'none'), ('forged', 'forged')]
+
+
+def run_threads(om, combo, prefix):
+    import os
+    from vf.sched import Scheduler
+    ch = sut.sub('common_helpers')
+    app = om.Ombott()
+    secret = 'sesame'
+    pairs = {'genuine': cookie_pair_of(ch, 'sess', {'user': 'alice', 'admin': True}, secret),
+             'other-value': cookie_pair_of(ch, 'sess', {'user': 'bob', 'admin': False}, secret),
+             'forged': cookie_pair_of(ch, 'sess', {'user': 'mallory', 'admin': True}, 'guessed-key'), 'none': None}
+    want = {'genuine': {'user': 'alice', 'admin': True}, 'other-value': {'user': 'bob', 'admin': False}, 'forged': MISSING, 'none': MISSING}
+
+    def h():
+        return repr(app.request.get_cookie('sess', default=MISSING, secret=secret))
+    app.route('/who', 'GET', h)
+
+    def prog(kind):
+        hdr = {'Cookie': pairs[kind]} if pairs[kind] else {}
+        return lambda: wsgi.call(app, wsgi.environ('GET', '/who', headers=hdr))
+    sp = os.path.join(os.path.realpath(sut.SRC), 'ombott') + os.sep
+    x = Scheduler([prog(combo[0]), prog(combo[1])], prefix, lambda fn: fn.startswith(sp) or fn == HERE).run()
+    return x, [repr(want[k]).encode() for k in combo]
+
+
+HERE = __import__('os').path.abspath(__file__)
+
+
+def judge_threads(combo, x, want):
+    if x.hung:
+        return 'threads:hang', 'a thread did not finish'
+    for t, e in x.errors.items():
+        return 'threads:error', f'thread {t} raised {type(e).__name__}: {e}'
+    for t in (0, 1):
+        r = x.results[t]
+        if r.code != 200 or r.body != want[t]:
+            return 'threads:' + combo[t], f'the request with the {combo[t]} cookie read {r.body!r} (status {r.status}); on its own it reads {want[t]!r}'
+    return None
+
+
+def work_threads(spec):
+    from vf.sched import explore
+    _, ci, start, bound = spec
+    res = core.new_result()
+    c = res['counters']
+    combo = THREAD_CASES[ci]
+
+    def run(p):
+        om = sut.load(fresh=True)
+        return run_threads(om, combo, p)
+    last = {}
+
+    def run_x(p):
+        x, want = run(p)
+        last['want'] = want
+        return x
+    for prefix, x in explore(run_x, bound, base=(start,)):
+        res['states'] += 1
+        res['transitions'] += len(x.points)
+        c['schedules'] += 1
+        if x.switches:
+            res['nontrivial'] += 1
+        v = judge_threads(combo, x, last['want'])
+        res['outcomes'].add(f'threads {combo} -> {"ok" if v is None else v[0]}')
+        if v is not None:
+            core.add_violation(res, {'kind': 'threads', 'combo': ci, 'choices': list(x.choices)},
+                               f'requests carrying a {combo[0]} and a {combo[1]} signed cookie on two threads of one application, {x.switches} switches: {v[1]}', sig=v[0])
+    res['execs'] = res['states']
+    core.add_sample(res, {'threads': list(combo), 'first_thread': start, 'preemption_bound': bound, 'schedules': c['schedules']})
+    sut.load(fresh=True)
+    return res
+
+
 def work(spec):
     kind = spec[0]
+    if kind == 'threads':
+        return work_threads(spec)
     res = core.new_result()
     om = sut.load()
     ch = sut.sub('common_helpers')
@@ -385,10 +484,19 @@ def work(spec):
             res['states'] += 1
             res['transitions'] += 2
             c['signed_roundtrips'] += 1
-            if got != value or proxy.loads_calls != before + 1:
+            if got != value:
                 core.add_violation(res, case0, f'signed cookie {name}={value!r} secret={secret!r} sent back as {pair!r} reads {got!r} '
                                                f'(unpickler calls: {proxy.loads_calls - before})', sig='signed:roundtrip')
                 return res
+            # what a handler does with the value it read is its own business: the same cookie returned by the next request reads unchanged
+            if scribble(got):
+                got2 = read_wsgi(om, pair, name, secret)
+                res['transitions'] += 1
+                c['read_again_after_edit'] += 1
+                if got2 != value:
+                    core.add_violation(res, dict(case0, scribble=True), f'signed cookie {name}={value!r} secret={secret!r} sent back as {pair!r} by two requests; the first '
+                                       f'handler edits the object it read in place; the second request reads {got2!r}', sig='signed:shared-object')
+                    return res
             core.add_sample(res, {'name': name, 'value': repr(value), 'secret': secret, 'cookie_header': pair})
             # every one-edit neighbour of the inner value
             assert pair.startswith(name + '="') and pair.endswith('"'), pair
@@ -550,7 +658,14 @@ def work(spec):
 
 
 def replay(case):
-    om = sut.load()
+    if case.get('kind') == 'threads':
+        combo = THREAD_CASES[case['combo']]
+        x, want = run_threads(sut.load(fresh=True), combo, case['choices'])
+        v = judge_threads(combo, x, want)
+        sut.load(fresh=True)
+        return None if v is None else (f'requests carrying a {combo[0]} and a {combo[1]} signed cookie on two threads of one application under the schedule '
+                                       f'with {x.switches} switches: {v[1]}')
+    om = sut.load(fresh=bool(case.get('scribble')))
     ch = sut.sub('common_helpers')
     proxy = PickleProxy()
     ch.pickle = proxy
@@ -595,6 +710,10 @@ def replay(case):
             if err:
                 return err
             got = read_wsgi(om, pair, name, secret)
+            if got == value and case.get('scribble') and scribble(got):
+                got2 = read_wsgi(om, pair, name, secret)
+                return None if got2 == value else (f'signed cookie {name}={value!r} sent back as {pair!r} by two requests; the first handler edits the object it '
+                                                   f'read in place; the second request reads {got2!r}')
             return None if got == value else f'signed cookie {name}={value!r} sent back as {pair!r} reads {got!r}'
         # same history as in the search: the genuine cookie is issued and read once, then the forged one is presented
         pair, err = emit_cookie(om, name, value, secret)
